@@ -75,6 +75,10 @@ def ints(vmax=70, bwmax=8):
     vals = list(range(-vmax, vmax + 1)) + [2 ** k for k in range(7, 70, 9)] + \
         [2 ** k - 1 for k in range(7, 70, 9)] + [-2 ** k for k in range(6, 70, 9)] + \
         [-2 ** k - 1 for k in range(6, 70, 9)]
+    # every power of two from 2**47 to 2**70 and its neighbours, a few beyond (no float rounding in the
+    # width computation), long runs of ones
+    for k in list(range(47, 71)) + [100, 127, 128, 200]:
+        vals += [2 ** k - 2, 2 ** k - 1, 2 ** k, 2 ** k + 1, -(2 ** k), -(2 ** k) - 1, -(2 ** k) + 1]
     n = 0
     F = Fails()
     for v in vals:
@@ -106,7 +110,7 @@ def ints(vmax=70, bwmax=8):
                     F.add('const:accepts-unrepresentable:%s' % sg, dict(case, via='Const'),
                           [st2, str(c)[:60]], 'PyrtlError')
     for b in (True, False):
-        for bw in (None, 1, 2):
+        for bw in (None, 0, -1, 1, 2):
             for signed in (False, True):
                 n += 1
                 st, r = _try(lambda: pyrtl.infer_val_and_bitwidth(b, bw, signed))
